@@ -52,7 +52,7 @@ def REQUIRED(tier):
 
 
 def _required(tier):
-    return ["regime:empty_request", "data:zero_packed_bytes",
+    return ["regime:empty_request", "data:zero_packed_bytes", "regime:relative_names_then_chdir",
         "plans_accepted", "plans_rejected_before_yield", "blocks_yielded", "regime:lastread<skipback", "regime:gulp>nsamps",
         "regime:block_crosses_file_boundary", "regime:partial_last_block_before_eof", "regime:gulp_not_dividing",
         "regime:start>0", "regime:skipback>gulp/2", "regime:skipback>=gulp", "overlap_audits", "spy:creadinto", "spy:seek",
@@ -119,7 +119,7 @@ def cases(tier, seed):
         cfg_r = {"N": N, "nbits": nbits, "nchans": nch, "split": split}
         if nbits < 8 and k % 2:
             cfg_r["sparse"] = True     # blanked stretches: whole packed bytes equal to zero between non-zero ones
-        yield {"cfg": cfg_r, "dseed": int(seed) + 1000 + k,
+        yield {"cfg": cfg_r, "dseed": int(seed) + 1000 + k, "relchdir": k % 5 == 3,
                "plans": plans, "alloc": ["default", "numpy", "bytearray", "mmap"][k % 4]}
 
 
@@ -199,7 +199,33 @@ def run_case(case, ctx):
     cfg = case["cfg"]
     X, paths = _files(ctx, cfg, case["dseed"])
     Xf = X.astype(np.float64)
-    fil = FilReader(paths if len(paths) > 1 else paths[0])
+    cwd0 = os.getcwd()
+    if case.get("relchdir"):
+        # opened by relative names; the process then moves to a directory that holds same-named files with other samples
+        ddir = os.path.dirname(paths[0])
+        decoy = os.path.join(ddir, "elsewhere")
+        if not os.path.isdir(decoy):
+            os.makedirs(decoy)
+            for pth in paths:
+                raw = open(pth, "rb").read()
+                hl = sigfile.parse_file(pth)[1]
+                with open(os.path.join(decoy, os.path.basename(pth)), "wb") as fh:
+                    fh.write(raw[:hl] + bytes((b ^ 0x55) for b in raw[hl:]))
+        os.chdir(ddir)
+        try:
+            fil = FilReader([os.path.basename(p) for p in paths] if len(paths) > 1 else os.path.basename(paths[0]))
+        finally:
+            os.chdir(decoy)
+        ctx.count("regime:relative_names_then_chdir")
+    else:
+        fil = FilReader(paths if len(paths) > 1 else paths[0])
+    try:
+        _run_plans(case, ctx, cfg, fil, Xf)
+    finally:
+        os.chdir(cwd0)
+
+
+def _run_plans(case, ctx, cfg, fil, Xf):
     if fil.header.nsamples != cfg["N"]:
         ctx.violation("reader-nsamples", f"reader infers {fil.header.nsamples} samples, file set holds {cfg['N']}", case)
         return
@@ -207,7 +233,7 @@ def run_case(case, ctx):
     bounds = np.cumsum(cfg["split"])[:-1].tolist()
     for plan in case["plans"]:
         gulp, start, nsamps, skipback = (int(v) for v in plan)
-        one = {"cfg": cfg, "dseed": case["dseed"], "plans": [list(plan)], "alloc": case.get("alloc", "default")}
+        one = {"cfg": cfg, "dseed": case["dseed"], "plans": [list(plan)], "alloc": case.get("alloc", "default"), "relchdir": bool(case.get("relchdir"))}
         check_plan(ctx, fil, Xf, cfg, bounds, gulp, start, nsamps, skipback, alloc, one)
 
 
